@@ -22,7 +22,8 @@ Inductive loc :=
 | LBeaconOrder    (* beacon.treasuresByOrder *)
 | LContent        (* treasure.treasure.Content *)
 | LCreatedAt | LCreatedBy | LModifiedAt | LModifiedBy | LExpiration | LDeleted
-| LFlags.         (* contentChanged, ... *)
+| LFlags          (* contentChanged, ... *)
+| LFileName.      (* treasure.treasure.FileName (pointer to the name of the file holding the record) *)
 
 Inductive akind := Rd | Wr.
 
@@ -35,7 +36,7 @@ Definition loc_eqb (a b : loc) : bool :=
   match a, b with
   | LBeaconMap, LBeaconMap | LBeaconOrder, LBeaconOrder | LContent, LContent | LCreatedAt, LCreatedAt
   | LCreatedBy, LCreatedBy | LModifiedAt, LModifiedAt | LModifiedBy, LModifiedBy
-  | LExpiration, LExpiration | LDeleted, LDeleted | LFlags, LFlags => true
+  | LExpiration, LExpiration | LDeleted, LDeleted | LFlags, LFlags | LFileName, LFileName => true
   | _, _ => false
   end.
 Definition is_wr (a : row) : bool := match r_kind a with Wr => true | Rd => false end.
@@ -85,7 +86,10 @@ Definition beacon_rows : list row := [
   R 10 "beacon.PushManyFromMap (ordered)" LBeaconOrder Wr bmuX;
   R 11 "beacon.SortBy*"                  LBeaconOrder Wr bmuX;
   R 12 "beacon.Shift*|ReindexExpiration" LBeaconOrder Wr bmuX;
-  R 13 "beacon.GetManyFromOrderPosition|GetManyFromKey" LBeaconOrder Rd bmuS
+  R 13 "beacon.GetManyFromOrderPosition|GetManyFromKey" LBeaconOrder Rd bmuS;
+  R 14 "beacon.CountMatching (Cap pre-count)" LBeaconMap Rd bmuS;
+  R 15 "beacon.ShiftMatching|ShiftExpired|ShiftMany|ShiftOne|SelectExpired* (scan, Cap count, removal)" LBeaconMap Wr bmuX;
+  R 16 "beacon.Reset|SetIsOrdered"       LBeaconMap   Wr bmuX
 ].
 
 Definition treasure_rows : list row := [
@@ -108,7 +112,32 @@ Definition treasure_rows : list row := [
   R 41 "treasure.BodySetForDeletion (DeletedAt/By)" LDeleted Wr guardX;
   R 42 "treasure.GetDeletedAt|GetDeletedBy" LDeleted Rd tmuS;
   R 43 "treasure.Set* (change flags)"    LFlags      Wr guardX;
-  R 44 "treasure.Is*Changed (SaveFunction, under the caller's guard)" LFlags Rd ((KGuard, Excl) :: tmuS)
+  R 44 "treasure.Is*Changed (SaveFunction, under the caller's guard)" LFlags Rd ((KGuard, Excl) :: tmuS);
+  (* the file pointer: stored by the chronicler's file-pointer callback on the flushing
+     goroutine (no guard, no t.mu), read through GetFileName by SaveFunction / deleteHandler *)
+  R 45 "treasure.BodySetFileName (swamp.FilePointerCallbackFunction, flush)" LFileName Wr [];
+  R 46 "treasure.GetFileName and its readers (SaveFunction, deleteHandler)" LFileName Rd tmuS;
+  R 47 "treasure.BodySetFileName (SaveFunction, under the caller's guard)" LFileName Wr guardX;
+  (* the subscriber callback of Gateway.SubscribeToEvents converts the LIVE record of a
+     New/Modified event (treasureToKeyValuePair); it runs on the writer's goroutine inside
+     SaveFunction, i.e. while the writer still owns the record guard *)
+  R 60 "event callback: treasure.GetContentType|GetContent*" LContent    Rd ((KGuard, Excl) :: tmuS);
+  R 61 "event callback: treasure.GetCreatedAt"     LCreatedAt  Rd ((KGuard, Excl) :: tmuS);
+  R 62 "event callback: treasure.GetCreatedBy"     LCreatedBy  Rd ((KGuard, Excl) :: tmuS);
+  R 63 "event callback: treasure.GetModifiedAt"    LModifiedAt Rd ((KGuard, Excl) :: tmuS);
+  R 64 "event callback: treasure.GetModifiedBy"    LModifiedBy Rd ((KGuard, Excl) :: tmuS);
+  R 65 "event callback: treasure.GetExpirationTime" LExpiration Rd ((KGuard, Excl) :: tmuS);
+  (* the same callback also converts event.OldTreasure = the record found in the key map. For a
+     writer that works on a record object which a concurrent Delete/ShiftByKeys has replaced
+     (C09: write_on_stale_record_object_after_delete) that is ANOTHER object, whose guard the
+     writer does not hold.  The harness maps event-callback reads to these rows only in runs that
+     contain removals (phase A); without removals rows 60-65 apply. *)
+  R 70 "event callback (swamp with removals): GetContentType|GetContent* of the indexed record" LContent    Rd tmuS;
+  R 71 "event callback (swamp with removals): GetCreatedAt of the indexed record"     LCreatedAt  Rd tmuS;
+  R 72 "event callback (swamp with removals): GetCreatedBy of the indexed record"     LCreatedBy  Rd tmuS;
+  R 73 "event callback (swamp with removals): GetModifiedAt of the indexed record"    LModifiedAt Rd tmuS;
+  R 74 "event callback (swamp with removals): GetModifiedBy of the indexed record"    LModifiedBy Rd tmuS;
+  R 75 "event callback (swamp with removals): GetExpirationTime of the indexed record" LExpiration Rd tmuS
 ].
 
 Definition table : list row := beacon_rows ++ treasure_rows.
@@ -123,9 +152,12 @@ Definition table_before_fix : list row := table ++ old_getall_rows.
 
 (* the part of the table whose discipline is sound: the beacon, and the record fields as
    accessed by guard holders only (no lock-free getter) *)
+(* a lock-free access: a getter under t.mu.RLock only, or an access holding no lock at all
+   (the chronicler's file-pointer callback) *)
 Definition is_lockfree_getter (a : row) : bool :=
   match r_kind a, r_locks a with
   | Rd, [(KTreasureMu, Shared)] => true
+  | _, [] => true
   | _, _ => false
   end.
 Definition table_guarded : list row := filter (fun a => negb (is_lockfree_getter a)) table.
@@ -206,6 +238,8 @@ Definition torn_witness : list rwstep := [WSetValue 2; RGetValue; RGetBy; WSetBy
 Inductive c10case :=
 | CRace (a b : N)                 (* a data-race report whose two stacks map to rows a and b *)
 | CRead (value by_ : Z)           (* a reader received (value, updatedBy) *)
+| CEvent (value by_ : Z)          (* a subscriber received a New/Modified event carrying (value, updatedBy) *)
+| CEventDup (value by_ : Z)       (* ... whose version an earlier event of the same key already carried *)
 | CQuiet (reads writes : N).      (* a child run finished; counters *)
 
 Definition find_row (id : N) : option row := find (fun r => N.eqb (r_id r) id) table.
@@ -222,6 +256,10 @@ Fixpoint pair_index (p : N * N) (l : list (N * N)) (i : N) : option N :=
    2 a reported race maps to a pair of rows that the table claims ordered by a lock or not
      conflicting (the table is wrong: correspondence failure);
    50 a read returned fields of two different versions;
+   51 an event carried fields of two different versions (the event record is converted under
+      the writer's guard, so unlike 50 this is not explained by the lock-free getters);
+   52 two events of one key carried the same version: an event record was converted after
+      the writer had left its guarded section and shows a later writer's version;
    100 + i: the race is the i-th predicted racy pair of the table *)
 Definition check_case (c : c10case) : N :=
   match c with
@@ -237,6 +275,8 @@ Definition check_case (c : c10case) : N :=
       | _, _ => 1%N
       end
   | CRead v b => if Z.eqb v b then 0%N else 50%N
+  | CEvent v b => if Z.eqb v b then 0%N else 51%N
+  | CEventDup _ _ => 52%N
   | CQuiet _ _ => 0%N
   end.
 
